@@ -116,12 +116,13 @@ def showOut : Plumb.Out Nat → String
 
 abbrev Err := Nat × Nat
 
-/-- error number 999 of the caller = a nil custom error inside a non-nil `error` -/
+/-- error number 999 of the caller = a nil custom error inside a non-nil `error`; 998 = the nil interface -/
 def typedNil : Err := (9, 999)
+def nilIface : Err := (9, 998)
 
 def showErr : Option Err → String
   | none => "nil"
-  | some (s, k) => if (s, k) == typedNil then "typednil" else s!"{s}.{k}"
+  | some (s, k) => if (s, k) == typedNil then "typednil" else if (s, k) == nilIface then "nil" else s!"{s}.{k}"
 
 /-- `(errty <name> result|arg)`: a custom type in place of `error` -/
 def parseErrTy (args : List SExp) : Option (Option (ErrChain.ErrTy × Bool)) :=
@@ -185,14 +186,16 @@ def buildAnswer (wfOk : Bool) (why : String) : String :=
   if wfOk then "model=g0.c1 spec=g0.c1" else s!"model=g0.c0 spec=g0.c1 why={why}"
 
 /-- build answer of a class with a custom type in place of `error`: does the generator accept it, does
-the package then compile; the specification: accepted and usable iff the type implements error (a clean
-refusal of `*E` / a named interface is tolerated: the generator only knows named types with methods) -/
-def buildAnswerErr (cfg : ErrChain.Cfg) (t : ErrChain.ErrTy) (isArg restOk : Bool) : String :=
-  let accept := ErrChain.isError cfg t
-  let compiles := accept && restOk && (if isArg then ErrChain.argPosCompiles t else ErrChain.resultPosCompiles cfg t)
+the package then compile; the specification: served exactly when `shouldAccept`, refused otherwise -/
+def buildAnswerErr (cfg : ErrChain.Cfg) (pos : ErrChain.ErrPos) (t : ErrChain.ErrTy) (restOk : Bool) : String :=
+  let accept := ErrChain.isError cfg pos t
+  let compiles := accept && restOk && ErrChain.compilesAt pos t
   let model := if !accept then "g1.c0" else if compiles then "g0.c1" else "g0.c0"
-  let spec := if ErrChain.implementsError t && t != .pointerToNamed && t != .namedIface then "g0.c1" else "g1.c0"
-  let why := if t == .namedPtrRecv then "errrecv" else "errtype"
+  let spec := if ErrChain.shouldAccept pos t then "g0.c1" else "g1.c0"
+  let why := match pos with
+    | .result => "errtype"
+    | .joinArg => "typednil"
+    | .toErrorArg => "errrecv"
   if model == spec then s!"model={model} spec={spec}" else s!"model={model} spec={spec} why={why}"
 
 /-- the failing stage of the op line: `(fail s k)` or `(fail)` -/
@@ -305,6 +308,13 @@ def runPlumb (s : DState) (fl : Flags) (name : String) (args : List SExp) : Opti
       some (answer ok (twice (showOut (Plumb.runUncurryCurry cfg ps f vs))) (twice (showOut (Spec.callOnce f vs))))
     | _, _ => none
 
+/-- behaviour answer of a class with a custom type in place of `error`: a refused call has no behaviour
+(`nogen`, on both sides when refusing is what should happen) -/
+def answerErr (cfg : ErrChain.Cfg) (pos : ErrChain.ErrPos) (t : ErrChain.ErrTy) (ok : Bool) (model spec : String) : String :=
+  let m := if !ErrChain.isError cfg pos t then "nogen" else if !(ok && ErrChain.compilesAt pos t) then "nocompile" else model
+  let sp := if ErrChain.shouldAccept pos t then spec else "nogen"
+  s!"model={m} spec={sp}"
+
 def runChain (s : DState) (fl : Flags) (name : String) (args : List SExp) : Option String := do
   let (ok, _) ← chainWf s fl name args
   match name with
@@ -352,7 +362,11 @@ def runChain (s : DState) (fl : Flags) (name : String) (args : List SExp) : Opti
       | some (.namedNilable, true), none => if fl.chain.typedNilFixed then none else some typedNil
       | _, e => e
     let why := if errModel == some typedNil then " why=typednil" else ""
-    some (answer ok (showResult (ErrChain.joinE (zerosFor outs) f errModel)) (showResult (Spec.joinESpec (zerosFor outs) f errin)) ++ why)
+    let m := showResult (ErrChain.joinE (zerosFor outs) f errModel)
+    let sp := showResult (Spec.joinESpec (zerosFor outs) f errin)
+    match custom with
+    | some (t, true) => some (answerErr fl.chain .joinArg t ok m sp ++ why)
+    | _ => some (answer ok m sp ++ why)
   | "bind" =>
     let a ← parseTyIds args "in"
     let outs ← parseTyIds args "outs"
@@ -400,12 +414,23 @@ def runChain (s : DState) (fl : Flags) (name : String) (args : List SExp) : Opti
     let okFlag ← match ← parseNats args "ok" with
       | [b] => some (b != 0)
       | _ => none
-    let k ← match ← parseNats args "err" with
-      | [k] => some k
+    -- `(err k)`: error number k of the caller; `(err)`: the zero value of the supplied type — a nil pointer
+    -- / nil slice of a custom error type (a typed nil: must come back as it is) or the nil interface
+    let custom ← parseErrTy args
+    let e ← match ← parseNats args "err" with
+      | [k] => some ((9, k) : Err)
+      | [] => match custom with
+        | some (.namedIface, _) | none => some nilIface
+        | some (.namedNilable, _) | some (.pointerToNamed, _) => some typedNil
+        | _ => none
       | _ => none
     if vs.length != ps.length then none else
     let f : List Nat → List Nat × Bool := fun a => (results s 0 rs a, okFlag)
-    some (answer ok (twice (showResult (ErrChain.toError (9, k) f vs))) (twice (showResult (Spec.toErrorSpec (9, k) f vs))))
+    let m := twice (showResult (ErrChain.toError e f vs))
+    let sp := twice (showResult (Spec.toErrorSpec e f vs))
+    match custom with
+    | some (t, true) => some (answerErr fl.chain .toErrorArg t ok m sp)
+    | _ => some (answer ok m sp)
   | _ => none
 
 def plumbOps : List String := ["curry", "flip", "apply", "uncurry", "uncurrycurry", "tuple"]
@@ -426,7 +451,9 @@ def run (s : DState) (name : String) (args : List SExp) : Option String :=
           else
             let (ok, why) ← chainWf s fl kind args
             match ← parseErrTy args with
-            | some (t, isArg) => some (buildAnswerErr fl.chain t isArg ok)
+            | some (t, isArg) =>
+              let pos : ErrChain.ErrPos := if !isArg then .result else if kind == "toerror" then .toErrorArg else .joinArg
+              some (buildAnswerErr fl.chain pos t ok)
             | none => some (buildAnswer ok why)
         | _ => none
       else if plumbOps.contains name then runPlumb s fl name args
